@@ -230,7 +230,8 @@ class Report:
             "backends": backends,
             "solver_time_s": round(sum(o.time_s for o in real), 3),
             "bounded_standins": self.bounded + [
-                {"id": o.id, "status": o.status, "detail": o.detail[:200]} for o in self.obligations if o.bounded],
+                {"id": o.id, "status": o.status, "detail": o.detail[:200]} for o in self.obligations
+                if o.bounded and o.id not in {b.get("id") for b in self.bounded}],
             "known_findings": [fid for fid, _ in self.known_lines],
             "encoding_crosscheck": self.crosscheck,
             "samples": samples,
